@@ -99,7 +99,7 @@ contract(E + 'Engine._add_step_path', props=['C10', 'C05'],
                   'has(self._step_graph.g_deps, p) == has(old(self._step_graph.g_deps), p) and '
                   'lookup(self._step_graph.g_deps, p) == lookup(old(self._step_graph.g_deps), p))))'])
 
-contract(E + 'Engine._add_process_path', props=['C10'],
+contract(E + 'Engine._add_process_path', props=['C10', 'C09'],
          types={'process': 'Ref[Process]', 'path': 'Path', 'flow': 'Tree'},
          requires=['is_node(flow)', 'dicts_along(flow, path)'],
          modifies=['self.process_paths', 'self._step_paths', '_StepGraph._sequential_steps', '_StepGraph.g_deps', '_StepGraph.g_seq'],
